@@ -212,6 +212,7 @@ func init() {
 		"Fill":            vxFill,
 		"FillAll":         vxFillAll,
 		"FillOne":         vxFillOne,
+		"FillOneOf": vxFillOneOf,
 		"Dump":            vxDump,
 	}
 }
